@@ -715,7 +715,7 @@ func runC10(c *CaseCtx) *CaseResult {
 		ops = 800 + r.Intn(1500)
 	}
 	cc.Ops = ops
-	cc.Hist = HistCfg{DescendPct: 72, PopOnChild: true, InvalidPct: 2}
+	cc.Hist = HistCfg{DescendPct: 72, PopOnChild: true, InvalidPct: 2, IterHandles: true}
 	if kind == "map" && c.Case%3 == 1 {
 		// root-level hash collisions: nested containers living inside collision groups grow and shrink through their handles
 		cc.Dig = &DigProfile{Alpha: [4]uint64{uint64(3 + r.Intn(8)), 2, 2, 0}, Salt: uint64(r.Int63())}
@@ -731,7 +731,7 @@ func runC10(c *CaseCtx) *CaseResult {
 		[]int{25, 25, 12, 13, 12, 13})
 	res, w, _ := runContainerCase(c, cc)
 	s := w.stats
-	res.NonTrivial = s.MaxDepth >= 1 && s.InlineToStand > 0 && s.StandToInline > 0 && s.ColdReopens > 0 && s.Ops["refresh"] > 0
+	res.NonTrivial = s.MaxDepth >= 1 && s.InlineToStand > 0 && s.StandToInline > 0 && s.ColdReopens > 0 && s.Ops["refresh"]+s.Ops["refresh-by-iteration"] > 0
 	return res
 }
 
@@ -1008,12 +1008,12 @@ func init() {
 	})
 	register(&Prop{
 		ID: "C10", Level: "exploration", Run: runC10, Cases: cases(16*60+ssParts, 16*300+ssParts), MinNonTrivial: 8,
-		Rule: "cases = seeded histories on trees of depth 3-5 mixing arrays and maps, wrapped and unwrapped children; 72% of operations go through handles of nested containers (acquired on insertion, by Get, refreshed at PRNG times), every mutator incl. SetType and bulk pop; " +
+		Rule: "cases = seeded histories on trees of depth 3-5 mixing arrays and maps, wrapped and unwrapped children; 72% of operations go through handles of nested containers (acquired on insertion, by Get, by MUTABLE ITERATION over the parent, refreshed at PRNG times), every mutator incl. SetType and bulk pop; " +
 			"after EVERY operation the whole tree is compared with the model from the ROOT (structure walk incl. the inline rule: inlined iff single slab within the parent's element limit minus wrapper size; value ids constant) and at commits rebuilt cold from registers. " +
 			"non-trivial = children flipped inline->standalone and standalone->inline, handles were refreshed, cold reopen happened; distinct by hash(config, operation list). " +
 			"The last 32 cases are a SMALL-SCOPE EXHAUSTIVE exploration: root array -> child array A -> grandchild array G plus a child map B (plain and wrapped variants), all handles obtained once at creation and never refreshed; every sequence of 4 (quick) / 5 (thorough) operations over a 12-operation alphabet (G append / remove / bulk pop, A insert-front / remove / settype, B set / remove, root insert-front / remove / append maximal element, commit with cold rebuild) at slab size 256, where two or three medium elements push G and then A across the inline limit; full tree, inline rule, API deep comparison, reachability and M-dirty after every operation",
 		Assumptions: []string{"one canonical handle per container; refreshing a handle drops the handles of its descendants", "handles of nested containers are re-acquired through their parents after a cache eviction or a reopen (roots are kept / reopened by id)", "mutation through handles from read-only iterators is not generated", "exploration, not proof"},
-		Mandatory:   []string{"inline_to_standalone_flips", "standalone_to_inline_flips", "cold_reopens", "small-scope-sequences-nested"},
+		Mandatory:   []string{"inline_to_standalone_flips", "standalone_to_inline_flips", "cold_reopens", "small-scope-sequences-nested", "handles-acquired-by-mutable-iteration"},
 	})
 	register(&Prop{
 		ID: "C11", Level: "exploration", Run: runC11, Cases: cases(16*24, 16*200), MinNonTrivial: 8,
